@@ -284,11 +284,10 @@ def run(ctx) -> None:
     scanned = 0
     resolve = ctx.p.classes["PluginContainer"].methods.get("resolve") if "PluginContainer" in ctx.p.classes else None
     for f in [init, addc, merge] + ([resolve] if resolve else []):
-        for call, c in a.func_calls(f):
+        for call in [x for x in ast.walk(f.node) if isinstance(x, ast.Call)]:
+            c = a.callee(f, call)
             scanned += 1
             if c.kind in ("ext", "extmethod") and any(c.name == x or c.name.startswith(x + ".") for x in nondet):
-                if c.name == "builtins.id" and f is not init:
-                    continue
                 rep.violate("C14.R7", f, call, f"{c.name}() makes the constructed tree depend on something other than the configuration")
     if not any(i.rule == "C14.R7" for i in rep.instances):
         rep.hold("C14.R7", init, init.node, f"no source of nondeterminism among the {scanned} calls of the tree-building functions")
